@@ -81,6 +81,100 @@ def layered(n, kind):
     return s
 
 
+ALL_BANG = ["add", "and", "cast", "con", "cond", "dag", "div", "empty", "eq", "exists", "filter", "find", "foldl", "foreach", "ge",
+            "getdagarg", "getdagname", "getdagop", "gt", "head", "if", "initialized", "interleave", "isa", "le", "listconcat",
+            "listflatten", "listremove", "listsplat", "logtwo", "lt", "mul", "ne", "not", "or", "range", "repr", "setdagarg",
+            "setdagname", "setdagop", "shl", "size", "sra", "srl", "strconcat", "sub", "subst", "substr", "tail", "tolower",
+            "toupper", "xor"]
+BANG_ARITY = {"not": 1, "size": 1, "head": 1, "tail": 1, "empty": 1, "tolower": 1, "toupper": 1, "logtwo": 1, "listflatten": 1,
+              "repr": 1, "initialized": 1, "getdagop": 1, "cast": 1, "isa": 1, "exists": 1, "if": 3, "subst": 3, "substr": 3,
+              "foreach": 3, "filter": 3, "foldl": 5, "dag": 3, "setdagop": 2, "getdagarg": 2, "getdagname": 2, "setdagarg": 3,
+              "setdagname": 3, "find": 3, "range": 2, "interleave": 2, "listsplat": 2, "listremove": 2}
+OPERANDS = ["1", "-2", '"s"', "f", "a", "d0", "zz", "w", "[1, 2]", "[]", "[f]", "(d0 1, 2)", "(zz a:$n)", "K<1>", "K<zz>", "!add(1, 2)",
+            "!foreach(i, [1], i)", "?", "true", "f.f", "d0.f", "{0, 1}", "f{0}", "[{ c }]", "NAME", "1 # 2", "i"]
+TYPES = ["int", "string", "K", "list<int>", "bits<2>", "dag", "ZZ"]
+
+
+def bangop_case(rng, op=None):
+    """one bang-operator call (right arity, or one less / more) with every operand position drawn from OPERANDS, inside a
+    record body that goes on with a field, a let and a defvar; the same call again at top level"""
+    op = op or ALL_BANG[rng.randrange(len(ALL_BANG))]
+    ar = BANG_ARITY.get(op, 2) + rng.choice([0, 0, 0, 0, -1, 1, 2])
+    ar = max(0, ar)
+    xs = [OPERANDS[rng.randrange(len(OPERANDS))] for _ in range(ar)]
+    if op == "cond":
+        call = "!cond(%s)" % ", ".join("%s: %s" % (x, OPERANDS[rng.randrange(len(OPERANDS))]) for x in xs)
+    else:
+        ty = "<%s>" % TYPES[rng.randrange(len(TYPES))] if (op in ("cast", "isa", "exists") or rng.random() < 0.1) else ""
+        if rng.random() < 0.08:
+            ty = "<"          # annotation cut short
+        call = "!%s%s(%s)" % (op, ty, ", ".join(xs))
+    call2 = "!%s(%s)" % (ALL_BANG[rng.randrange(len(ALL_BANG))], ", ".join(OPERANDS[rng.randrange(len(OPERANDS))] for _ in range(rng.randrange(0, 4))))
+    return ("class K<int p = 0> { int f = 1; }\ndef d0 : K;\n"
+            "class T<int a> : K {\n  int g = %s;\n  int h = g;\n  let f = %s;\n  defvar w = g;\n  int k = w;\n}\n"
+            "defvar top = %s;\ndef after : T<1> { let f = 3; int m = top; }\n"
+            "multiclass MC<int a> { def X : K { int g = %s; } defvar w = 1; def Y : K<w>; }\ndefm mm : MC<2>;\n"
+            % (call, rng.choice(["2", call2, call]), call, call))
+
+
+ARG_POOL = ["1", "d0", "zz", '"s"', "[1]", "?", "a = 1", "lo = 2", "hi = 3", "x = 4", 'y = "q"', "z = [1]", "qq = 5", '"a" = 1', '"lo" = 2',
+            '"nope" = 3', "1 = 2", "[1] = 2", "!add(1, 2) = 3", "K<1> = 4", "? = 5", "lo = 2", "a = zz", "1", "2", "!add(zz, 1)", "d0.f"]
+
+
+BINDERS = ["acc", "i", "f", "1", '"s"', "?", "[1]", "a.b", "!add(1, 2)", "K<1>", "x # y", "$v"]
+LISTS = ["[1, 2]", "xs", "[f, 2]", "f", "[]", '["a"]', "!listconcat([1], xs)", "zz"]
+
+
+def binder_cases():
+    """!foreach / !filter / !foldl with every combination of usable and unusable bound names over typed and untyped lists,
+    in a record body that continues with a field, a let and a defvar (scope-stack balance), and at top level"""
+    out = []
+    for li in LISTS:
+        for b1 in BINDERS:
+            calls = ["!foreach(%s, %s, !add(%s, 1))" % (b1, li, b1 if b1.isalpha() else "f"),
+                     "!filter(%s, %s, !eq(%s, 1))" % (b1, li, b1 if b1.isalpha() else "f")]
+            calls += ["!foldl(0, %s, %s, %s, !add(%s, 1))" % (li, b1, b2, b1 if b1.isalpha() else "f") for b2 in BINDERS]
+            body = "".join("  int g%d = %s;\n" % (i, c) for i, c in enumerate(calls))
+            out.append("defvar xs = [1, 2, 3];\nclass K<int p = 0> { int f = 1; }\n"
+                       "class T<int a> : K {\n%s  int h = 2;\n  let f = 3;\n  defvar w = h;\n  int k = w;\n}\n"
+                       "defvar top = %s;\ndefvar top2 = top;\ndef after : T<1> { let f = 4; }\n" % (body, calls[-1]))
+            for c in calls[::5]:
+                out.append("defvar xs = [1, 2, 3];\nclass T { int f = 1; int g = %s; int h = f; let f = 2; }\ndefvar t = %s;\ndefvar u = t;\n" % (c, c))
+    return out
+
+
+def arglist_case(rng):
+    """argument lists (length 0 .. declared parameters + 3) over positional / named / malformed-named / duplicate arguments, for class
+    references, class values, defm parents and multiclass parents, against classes and multiclasses with 0..3 parameters"""
+    decl = ("class K<int p = 0> { int f = 1; }\ndef d0 : K;\n"
+            "class P0;\nclass P1<int a>;\nclass P2<int lo, int hi>;\nclass P3<int x, string y = \"d\", list<int> z = []>;\n"
+            "multiclass M0 { def X : P0; }\nmulticlass M1<int a> { def X : P1<a>; }\nmulticlass M2<int lo, int hi = 1> { def X : P2<lo, hi>; }\n")
+
+    def args(npar):
+        n = rng.randrange(0, npar + 4)
+        return ", ".join(ARG_POOL[rng.randrange(len(ARG_POOL))] for _ in range(n))
+    out = [decl]
+    for _ in range(rng.randrange(2, 6)):
+        k = rng.randrange(3 + 1)
+        cls = "P%d" % k
+        m = rng.randrange(3)
+        form = rng.randrange(6)
+        if form == 0:
+            out.append("def : %s<%s>;\n" % (cls, args(k)))
+        elif form == 1:
+            out.append("class E%d : %s<%s>, P0 { int q = 1; let q = 2; }\n" % (rng.randrange(9), cls, args(k)))
+        elif form == 2:
+            out.append("defvar v%d = %s<%s>;\n" % (rng.randrange(9), cls, args(k)))
+        elif form == 3:
+            out.append("defm m%d : M%d<%s>;\n" % (rng.randrange(9), m, args(m)))
+        elif form == 4:
+            out.append("multiclass N%d<int a> : M%d<%s> { def Z : %s<%s>; }\n" % (rng.randrange(9), m, args(m), cls, args(k)))
+        else:
+            out.append("def g%d : K { int f2 = %s<%s>.f; list<K> l = [%s<%s>]; }\n" % (rng.randrange(9), cls, args(k), cls, args(k)))
+    out.append("def after : K { int z = 1; let f = 2; }\ndefvar last = after.z;\n")
+    return "".join(out)
+
+
 def std_hints(fs):
     """inlay-hint ranges used when re-running a (shrunk) failing input: whole file, and empty ranges at a few offsets"""
     out = []
@@ -113,6 +207,19 @@ def gen_inputs(ctx):
             add("stress-prefix", [["/w/main.td", p], fs[1]], "/w/main.td")
         for p in symgen.token_edits(s, ctx.rng, 6 if ctx.quick else 40):
             add("stress-edit", [["/w/main.td", p], fs[1]], "/w/main.td")
+    # grammar-aware families: bang-operator operand fuzz (every operator of the lexer table at least twice) and argument-list fuzz
+    for rep in range(2 if ctx.quick else 12):
+        for op in ALL_BANG:
+            add("bangop-fuzz", [["/w/main.td", bangop_case(ctx.rng, op)]], "/w/main.td")
+    for _ in range(150 if ctx.quick else 1200):
+        add("bangop-fuzz", [["/w/main.td", bangop_case(ctx.rng)]], "/w/main.td")
+    bc = binder_cases()
+    if ctx.quick:
+        bc = ctx.rng.sample(bc, 160)
+    for t in bc:
+        add("binder-fuzz", [["/w/main.td", t]], "/w/main.td")
+    for _ in range(300 if ctx.quick else 2500):
+        add("arglist-fuzz", [["/w/main.td", arglist_case(ctx.rng)]], "/w/main.td")
     for n in ((30, 40) if ctx.quick else (26, 30, 34, 40)):
         for kind in ("dup", "diamond"):
             add("layered-hierarchy", [["/w/main.td", layered(n, kind)]], "/w/main.td")
@@ -218,7 +325,10 @@ def run(ctx):
                 "and `!`) at every char-boundary offset 0..=len of every workspace file; inlay_hint for the whole file, 3 random sub-ranges, a random "
                 "empty range and 0..0. Inputs: lib/symgen workspaces (single / chain / star / diamond / missing include / include in blocks, all acyclic) "
                 "with token prefixes, single-token edits, non-ASCII injection; EVERY token prefix of a sample of programs; %d hand-written semantic "
-                "stress programs with all their prefixes and token edits; thorough adds LLVM-14 corpus roots. non-trivial = distinct workspace whose "
+                "stress programs with all their prefixes and token edits; layered duplicate-parent / diamond hierarchies (30-40 layers); bang-operator "
+                "operand fuzz (every operator of the lexer table, arity 0/-1/+1/+2, operands from 27 kinds, inside a record body that continues with "
+                "field / let / defvar, at top level and in a multiclass) and argument-list fuzz (positional / named / malformed-named / duplicate "
+                "arguments, length 0..params+3, for class refs, class values, defm and multiclass parents); thorough adds LLVM-14 corpus roots. non-trivial = distinct workspace whose "
                 "indexing makes >= 3 symbol-map calls" % len(STRESS),
         "workspaces": len(wss) + len(cws),
         "workspaces_by_kind": by_kind,
